@@ -22,6 +22,7 @@ META = {
     "assumptions": ["regex::Regex::{new,is_match,find} as documented"],
     "not_decided": ["I-Regexp vs regex-crate dialect differences"],
 }
+META["explanation"] += ' R9 `Regex::new` is only called inside the regex implementation (not while parsing).'
 
 Q = "crate::query::Query"
 M = "crate::parser::model::"
